@@ -250,9 +250,11 @@ class Mon:
 
 
 def _data(rng, shape, dtype):
+    from ..common import relayout
+
     if dtype == "int32":
-        return rng.integers(-1000, 1000, shape).astype(np.int32)
-    return (rng.standard_normal(shape) * float(rng.choice([1e-3, 1, 50]))).astype(dtype)
+        return relayout(rng, rng.integers(-1000, 1000, shape).astype(np.int32))
+    return relayout(rng, (rng.standard_normal(shape) * float(rng.choice([1e-3, 1, 50]))).astype(dtype))
 
 
 def run_case(case, rec, mon=None):
